@@ -74,6 +74,60 @@ func VerifC06_Routing() {
 	}
 }
 
+// VerifC06_Routing3: three open transactions with arbitrary pairwise-distinct system bytes (so
+// keys that agree on any three of their four bytes are inside the quantifier) and an arbitrary
+// inbound data secondary: exactly the transaction whose four system bytes all match is
+// completed, with that frame, and the other two stay open; if none matches, none is completed.
+func VerifC06_Routing3() {
+	vsymExpect("hit")
+	vsymExpect("miss")
+	v := newVConnection(SelectedState)
+	ks := [3][4]byte{sym4(), sym4(), sym4()}
+	vsymAssume(ks[0] != ks[1])
+	vsymAssume(ks[0] != ks[2])
+	vsymAssume(ks[1] != ks[2])
+	var chs [3]chan replyResult
+	for i := range ks {
+		chs[i] = v.e.replies.register(ks[i])
+	}
+	h := vsymBytes(10)
+	h[4], h[5] = 0, 0
+	h[2] &= 0x7F
+	vsymAssume(h[3]%2 == 0)
+	frame := append([]byte(nil), h...)
+	var hdr [10]byte
+	copy(hdr[:], h)
+	err := v.c.DeliverOwnedFrame(frame)
+	vsymAssert(err == nil, "secondary-accepted")
+	sys := [4]byte{h[6], h[7], h[8], h[9]}
+	want := -1
+	for i := range ks {
+		if sys == ks[i] {
+			want = i
+		}
+	}
+	total := 0
+	for i := range chs {
+		total += len(chs[i])
+		if i != want {
+			vsymAssert(len(chs[i]) == 0, "non-matching-transaction-stays-open")
+		}
+	}
+	if want >= 0 {
+		vsymReach("hit")
+		vsymAssert(total == 1 && len(chs[want]) == 1, "reply-completes-exactly-the-matching-transaction")
+		vsymAssert(len(v.got) == 0 && len(v.got2) == 0, "routed-reply-not-delivered-to-handlers")
+		if len(chs[want]) == 1 {
+			r := <-chs[want]
+			vsymAssert(r.err == nil && r.msg != nil && r.msg.HeaderBytes() == hdr, "reply-is-the-inbound-frame")
+		}
+	} else {
+		vsymReach("miss")
+		vsymAssert(total == 0, "unmatched-secondary-completes-nothing")
+		vsymAssert(len(v.got) == 1 && len(v.got2) == 1, "unmatched-secondary-reaches-handlers-once")
+	}
+}
+
 // VerifC06_Reject: an inbound Reject.req for an open transaction becomes a RejectError with the
 // peer's reason code for that sender only.
 func VerifC06_Reject() {
